@@ -34,4 +34,63 @@ CHECKS = {
         "(TLC cannot fold kilobytes). Truncated (16-bit) checksum collisions are excluded from clause (b) obligations.",
    technique="TLA+ bit-serial CRC definitions evaluated by TLC against the library; Consistent.Csums on projected images; spec-guided fault enumeration"),
 }
+
+CHECKS.update({
+ "C03": dict(level="model_checking",
+   text="TLC model-checks Jbd2.tla: a format-level journal generator (WriteTxn / Checkpoint / Damage), the property-level Final computed from the generator's history, and Recover = "
+        "a transcription of recovery.c's three passes (scan / revoke / replay, checksum v1/v2/v3, async commit, 64bit tags, wrap-around); ReplayExact holds with all deviation constants off, "
+        "ReplayExactOrDev with the pinned tree's named deviations on. Conformance: seeded stratified abstract journals from the same universe are encoded into real images by an independent "
+        "encoder, recovered three ways (e2fsck -E journal_only, e2fsck -fy, debugfs jr), read back by an independent decoder and validated by TLC as behaviours of Trace_Jbd2 (Recover must produce "
+        "exactly the observed block versions, journal emptied, needs_recovery cleared, front-ends agree); the repository's own j_* images are run the same way.",
+   note="Trusted: TLC, gen/jbd2write.py (own encoder/decoder, own crc32c/crc32_be). Fast-commit replay is not modelled. Two known findings (named deviations DevReplayPastBadTag, DevScanAbort) "
+        "are kernel-compatible behaviours that contradict the property text; they are listed in known_findings.txt. External journals only through the repository's images.",
+   technique="TLA+ spec of jbd2 recovery model-checked with TLC + trace validation of real e2fsck/debugfs recoveries of spec-generated journals"),
+ "C09": dict(level="model_checking",
+   text="TLC model-checks FileData.tla (property level: a file is a byte map with holes), FileBuf.tla (the one-block buffer of fileio.c refining it), ExtentMap.tla and IndMap.tla "
+        "(extent-leaf list under set_bmap / punch; indirect-map punch arithmetic) on small constants. Histories over the same operation alphabet are concretised (cut points -> byte offsets from a "
+        "boundary catalogue per filesystem profile: ext4 1k/4k, ext2, bigalloc, inline_data, nearly full) and executed by harness/filedrv.c through the public file API; every logged line "
+        "(read results, sizes, mapped blocks, leaf-extent list, ENOSPC outcomes, e2fsck -fn at close) is validated by TLC against Trace_FileData / Trace_ExtentMap / Trace_IndMap.",
+   note="Trusted: TLC, harness/filedrv.c, e2fsck -fn as the consistency oracle at close. Offsets come from a boundary catalogue, not all 2^64; histories are seeded samples inside the spec's constants. "
+        "One known finding (fallocate leaks claimed blocks when the extent insert fails: its repair changes the expected output of tests/f_jnl_etb_alloc_fail).",
+   technique="TLA+ refinement model checking (TLC) + trace validation of real-library file I/O histories"),
+ "C10": dict(level="model_checking",
+   text="TLC model-checks Dir.tla (namespace, link counts vs references, inode/block release), DirBlock.tla (link_proc / unlink_proc / expand with the true 1 KiB rec_len arithmetic) and HTree.tla "
+        "(dx_lookup / dx_split_leaf / dx_grow_tree with scaled node limits). Seeded operation histories are executed through harness/dirdrv.c (libext2fs API) and debugfs -w -f, interleaved with "
+        "e2fsck -fyD, on linear / dir_index / metadata_csum / inline_data / no-filetype / dir_nlink profiles x 1k/4k; after every step the whole filesystem is observed (listings, types, link "
+        "counts, in-use sets, exact slot layout of every directory block, htree index, free counts) and validated by TLC against Trace_Dir with all invariants at every line.",
+   note="Trusted: TLC, harness/dirdrv.c's observer, e2fsck -fn verdict at the end of a history. Directory sizes reach the 2-level htree only in thorough. Encrypted / casefolded directories are not exercised.",
+   technique="TLA+ model checking (TLC) of directory-block and htree transcriptions + trace validation of real library/debugfs histories"),
+ "C11": dict(level="model_checking",
+   text="Tune.tla transcribes the request/effect relation of misc/tune2fs.c (update_feature_set, main: Refused / Effect / AllowedChange / rewrite obligations); TLC explores every sequence of <= 3 "
+        "accepted requests from each starting profile and checks that no reachable feature set is one the library or e2fsck rejects and that every checksum-key change is followed by a rewrite covering "
+        "every checksummed object class. Conformance: the request universe is enumerated by the spec (Emit_Tune), each request sequence runs the real tune2fs on populated base images and each step "
+        "is a trace line validated by TLC (Trace_Tune): abstract(after) = Effect(op, before), changed superblock fields inside AllowedChange, requested e2fsck succeeded, e2fsck -fn clean, tree equal.",
+   note="Trusted: TLC, lib/sbparse.py, lib/absstate.py tree digest (via debugfs rdump + stat listing), e2fsck -fn. -I inode resize only 128->256; external journals and mounted-filesystem paths not exercised.",
+   technique="TLA+ spec of tune2fs's feature-change contract model-checked with TLC + trace validation of real tune2fs runs enumerated by the spec"),
+ "C13": dict(level="model_checking",
+   text="ToolRun.tla models one tool invocation over a device (Open / DevWrite / DevTruncate / DevFallocate / DevFsync / Close / Exit / Killed) with ReadOnlyNeverModifies, RoUnmodified; TLC checks it "
+        "exhaustively. Conformance: image states (7 profiles x {clean, journal needing recovery, orphans, MMP, quota, ~40 corruption recipes, seeded metadata damage}) x every documented read-only "
+        "command line of every tool and every debugfs request without -w run under LD_PRELOAD=iotrace.so; the recorded event stream + {exit, signal, sha256 before = after} is validated by TLC "
+        "against Trace_ToolRun: any write-class call on a writable descriptor of the target, O_TRUNC/O_CREAT open or changed digest rejects the trace.",
+   note="Trusted: TLC, harness/iotrace.so (control runs prove it sees writes), sha256 of the image. mmap writes and direct syscalls are not interposed (the tools use neither). Block devices are not available in the sandbox.",
+   technique="TLA+ protocol spec (TLC) + trace validation of system-call recordings of real read-only tool runs"),
+ "C15": dict(level="model_checking",
+   text="TLC model-checks XattrPlace.tla (transcription of ext_attr.c: xattr_array_update, ext2fs_xattrs_write, prep_ea_block_for_write, value inodes) against the property-level map of Xattr.tla "
+        "(Refines, NoOverflow, SortedBlock, BlockIffEntries, EaRefs, PeerIntact, Charge...) exhaustively over set/remove sequences on inode sizes 128/256/1024, ea_inode on/off, inline-data files. "
+        "Seeded histories are stepped through the real library (harness/xattrdrv.c) and debugfs ea_set/ea_rm/ea_get; after EVERY step the image is parsed by an independent parser "
+        "(gen/xattrparse.py) and the step validated by TLC against Trace_XattrPlace: exact placement, order, sizes, refcounts, free-block/inode and i_blocks accounting, get = model map.",
+   note="Trusted: TLC, gen/xattrparse.py, e2fsck -fn at the end of every history. One known finding (DevCowNoEaRef: copy-on-write of a shared block does not take references on EA inodes). "
+        "POSIX ACL conversion is exercised only through the system.posix_acl_* names the driver sets.",
+   technique="TLA+ refinement model checking (TLC) + per-step trace validation of real-library xattr histories through an independent image parser"),
+ "C17": dict(level="model_checking",
+   text="Cache: TLC model-checks UnixIoCache.tla (one action per unix_io manager entry point, LRU, write-through, bounce, failures) exhaustively at K in {3,4} slots against IoChannel.tla (Coherent, "
+        "DurableAfterFlush, ErrorReported, refinement) and by simulation at the real constants K=8; seeded histories run through the real unix_io_manager (harness/iodrv.c) under 10 channel "
+        "configurations incl. injected device write failures; every call (arguments, return, data tags, the 8 cache slots via hook H1, device events, backing file) is validated by TLC against "
+        "Trace_UnixIoCache. Threads: TLC checks BitmapLoad.tla (partition formula, lock protocol, all interleavings, termination); harness/bmload.c loads bitmaps with 1..16 threads under "
+        "schedule perturbation, result must equal the single-threaded load and hook H3's events must be a behaviour of Trace_BitmapLoad.",
+   note="Trusted: TLC, hooks H1/H3 (read-only), iotrace.so fault injection. Data races are observed through H3's held/inside flags under perturbed schedules, not proven absent for every schedule of "
+        "the real code (the spec covers all interleavings; the binding is by sampled schedules). Block-device paths (BLKDISCARD) unreachable in the sandbox.",
+   technique="TLA+ refinement model checking (TLC, exhaustive + simulation) + trace validation of real unix_io histories and threaded bitmap loads"),
+})
+HOOK_COMMITS += ["e83db2f9", "a9b77b7d"]
 NA = {}
